@@ -138,8 +138,11 @@ bool linepart::array::apply(const transform &tr, int dim, span<const double> src
 				old = base[pos];
 			}
 		} else {
+			// data ends inside the drawn points of the old part
+			bool whole = true;
 			if (len < old.usr) {
 				old.usr = len;
+				whole = false;
 			}
 			pt = tr.part(dim, val, old.usr);
 			// minimize leading line (nothing to cut without drawn points)
@@ -147,7 +150,7 @@ bool linepart::array::apply(const transform &tr, int dim, span<const double> src
 				pt._cut = old._cut;
 			}
 			// minimize trailing line when new part ends on last drawn point of old part
-			if (pt.usr && pt.usr == old.usr && old._trim > pt._trim) {
+			if (pt.usr && whole && pt.usr == old.usr && old._trim > pt._trim) {
 				pt._trim = old._trim;
 			}
 			// partial segment
